@@ -57,8 +57,11 @@ impl Variables {
             .insert(name, RuntimeVariableInfo::new(value, arg_path));
     }
 
-    pub fn insert_param(&mut self, param_name: Parameter, value: Variant) {
-        self.insert(Self::param_to_name(param_name), value);
+    pub fn insert_param(&mut self, param_name: Parameter, value: Variant, arg_path: Option<Path>) {
+        self.map.insert(
+            Self::param_to_name(param_name),
+            RuntimeVariableInfo::new(value, arg_path),
+        );
     }
 
     fn param_to_name(param_name: Parameter) -> Name {
@@ -167,7 +170,7 @@ impl Variables {
         } in arguments.into_iter()
         {
             match param_name {
-                Some(param_name) => self.insert_param(param_name, value),
+                Some(param_name) => self.insert_param(param_name, value, arg_path),
                 None => self.insert_unnamed(value, arg_path),
             }
         }
